@@ -213,7 +213,7 @@ def consistent (σ : SpecSt) (c : Ctx) : Bool :=
    | .open true | .hcr true => c.block == .this
    | .closedOur true => true
    | _ => c.block != .this) &&
-  (!c.prevUnfinished || c.block == .other)
+  (!c.prevUnfinished || c.block != .none)
 
 /-- The simulation relation: the places the server's tables can have a stream whose RFC state is `σ`.
 (`tab idle …` / `tab closed …` occur only inside a step or after a connection error; they relate to nothing.) -/
